@@ -2333,7 +2333,7 @@ public:
     {
         auto dimension = (*this)(get_header_tag{});
         return sbepp::size_bytes(dimension)
-               + dimension.numInGroup().value()
+               + static_cast<std::size_t>(dimension.numInGroup().value())
                      * dimension.blockLength().value();
     }
 
